@@ -542,7 +542,10 @@ class Interp:
                 if h(self, obj, idx, v) is not NOT_HANDLED:
                     return
             idx = unwrap(idx)
-            if isinstance(obj, dict) and is_sym(idx):
+            if getattr(type(obj), "__symx_model__", False):
+                obj[idx] = v
+                return
+            if isinstance(obj, dict) and not deep_concrete(idx):
                 raise Unsupported("dict store with symbolic key")
             if isinstance(obj, list) and isinstance(idx, SymInt):
                 idx = concretize(idx)
@@ -781,15 +784,14 @@ class Interp:
         return self.ev_index(e, env)
 
     def e_Dict(self, e, env):
-        out = {}
+        from .models_lib import IDict
+
+        out = IDict()
         for k, v in zip(e.keys, e.values):
             if k is None:
                 out.update(self.ev(v, env))
                 continue
-            kk = unwrap(self.ev(k, env))
-            if is_sym(kk):
-                raise Unsupported("dict display with symbolic key")
-            out[kk] = self.ev(v, env)
+            out[self.ev(k, env)] = self.ev(v, env)
         return out
 
     def e_JoinedStr(self, e, env):
@@ -871,6 +873,8 @@ class Interp:
             r = h(self, obj, idx)
             if r is not NOT_HANDLED:
                 return r
+        if getattr(type(obj), "__symx_model__", False) and hasattr(type(obj), "__getitem__") and not isinstance(obj, SymSeq):
+            return obj[unwrap(idx)]
         if isinstance(obj, dict) and not deep_concrete(unwrap(idx)):
             from .models_lib import sym_dict_get
 
@@ -992,7 +996,9 @@ class Interp:
         return set(self.e_ListComp(e, env))
 
     def e_DictComp(self, e, env):
-        out = {}
+        from .models_lib import IDict
+
+        out = IDict()
         self.comp(e.generators, env, lambda en: out.__setitem__(self.ev(e.key, en), self.ev(e.value, en)))
         return out
 
